@@ -783,7 +783,90 @@ func rootOfAddr(v ssa.Value) (root ssa.Value, viaEvent bool) {
 	return v, viaEvent
 }
 
+// privateCell: v is a variable of an enclosing function captured by the
+// closure that writes it (`n := 0; m.Loop(func(..) { n += .. })`), and the
+// enclosing function keeps the cell to itself: it is only loaded, stored, and
+// bound into closures that are called synchronously (never the operand of `go`,
+// never stored, handed only to functions that just call their parameter). Such
+// a cell is fresh per call of the enclosing function — not shared state.
+func privateCell(v ssa.Value, depth int) bool {
+	fv, ok := v.(*ssa.FreeVar)
+	if !ok || depth > 3 {
+		return false
+	}
+	switch b := an.FreeVarBinding(fv).(type) {
+	case *ssa.FreeVar:
+		return privateCell(b, depth+1)
+	case *ssa.Alloc:
+		for _, r := range *b.Referrers() {
+			switch x := r.(type) {
+			case *ssa.Store:
+				if x.Addr != ssa.Value(b) {
+					return false // the address itself is stored somewhere
+				}
+			case *ssa.UnOp, *ssa.DebugRef:
+			case *ssa.MakeClosure:
+				if !closureCalledSynchronously(x, 0) {
+					return false
+				}
+			default:
+				return false
+			}
+		}
+		return true
+	}
+	return false
+}
+
+// closureCalledSynchronously: every use of the function value f is a call of
+// it, or passing it to a function that (recursively) only calls it.
+func closureCalledSynchronously(f ssa.Value, depth int) bool {
+	if depth > 3 || f.Referrers() == nil {
+		return false
+	}
+	for _, r := range *f.Referrers() {
+		switch x := r.(type) {
+		case *ssa.DebugRef:
+		case *ssa.Call, *ssa.Defer:
+			com := x.(ssa.CallInstruction).Common()
+			if com.Value == f {
+				continue // called here
+			}
+			g := com.StaticCallee()
+			if g == nil {
+				return false
+			}
+			if !an.InModuleFn(g) {
+				switch an.FuncFullName(g) {
+				case "time.AfterFunc", "context.AfterFunc":
+					return false
+				}
+				if pk := g.Package(); pk != nil && pk.Pkg.Path() == "net/http" {
+					return false
+				}
+				continue // library functions taking a callback run it before returning
+			}
+			args := com.Args
+			params := g.Params
+			if len(params) != len(args) {
+				return false
+			}
+			for i, a := range args {
+				if a == f && !closureCalledSynchronously(params[i], depth+1) {
+					return false
+				}
+			}
+		default:
+			return false // go f(), stored, returned, sent …
+		}
+	}
+	return true
+}
+
 func localRoot(v ssa.Value) bool {
+	if privateCell(v, 0) {
+		return true
+	}
 	switch x := v.(type) {
 	case *ssa.Alloc, *ssa.MakeSlice, *ssa.MakeMap:
 		return true
